@@ -23,10 +23,19 @@ def check(chk):
     en = m.func('_ConcurrentExecutor._execute_next')
     s = src(en)
     asg = [st for st in body_walk(en) if isinstance(st, ast.Assign) and 'next(self._enum_statements)' in src(st.value)]
-    good = len(asg) == 1 and src(asg[0].targets[0]).replace('(', '').replace(')', '') == 'idx, statement, params' and 'self._execute(idx, statement, params)' in s
+    good = len(asg) == 1
+    if good:
+        # (i, (stmt, params)) = next(...)  - whatever the names - and self._execute(i, stmt, params) with exactly those
+        t_ = asg[0].targets[0]
+        flat = [x.id for x in ast.walk(t_) if isinstance(x, ast.Name)]
+        shape = isinstance(t_, ast.Tuple) and len(t_.elts) == 2 and isinstance(t_.elts[0], ast.Name) and isinstance(t_.elts[1], ast.Tuple) and len(t_.elts[1].elts) == 2
+        exs = [c_ for c_ in body_walk(en) if isinstance(c_, ast.Call) and src(c_.func) == 'self._execute']
+        good = shape and len(flat) == 3 and len(exs) == 1 and [src(a_) for a_ in exs[0].args] == [t_.elts[0].id, src(t_.elts[1].elts[0]), src(t_.elts[1].elts[1])] and not exs[0].keywords
     chk.judge(good, 'C32.index', en, '(idx, (statement, params)) = next(enum); self._execute(idx, statement, params)', 'index/statement hand-over changed')
     init = m.func('_ConcurrentExecutor.__init__')
-    chk.judge('self._enum_statements = enumerate(iter(statements_and_params))' in src(init), 'C32.index', init, 'indexes come from enumerate over the input order', 'enumeration changed')
+    from ..sem import resolve as _res32
+    ens = [st for st in body_walk(init) if isinstance(st, ast.Assign) and src(st.targets[0]) == 'self._enum_statements']
+    chk.judge(len(ens) == 1 and src(_res32(init, ens[0].value)) in ('enumerate(iter(statements_and_params))', 'enumerate(statements_and_params)'), 'C32.index', init, 'indexes come from enumerate over the input order', 'enumeration changed')
     # ordering of increment vs start
     g = CFG(en, may_raise=lambda n: ['StopIteration'] if 'next(self._enum_statements)' in src(n) else [])
     fl = Flow(g, False, lambda n, c: True if (n.kind == 'stmt' and isinstance(n.ast, ast.AugAssign) and src(n.ast.target) == 'self._exec_count' and src(n.ast.value) == '1') else c)
@@ -66,12 +75,20 @@ def check(chk):
     chk.judge(len(clr) == 1 and len(put) == 1 and gos.dominates(clr[0], put[0]), 'C32.once', os_, 'future.clear_callbacks() precedes _put_result',
               'the executor stays registered on the future: when the caller iterates a multi-page ResultSet the future fires its callbacks for every further page, _put_result runs again '
               'for the same index - an extra statement is started and the results queue holds a duplicate')
-    chk.judge('self._put_result(ResultSet(future, result), idx, True)' in src(os_), 'C32.index', os_, '_on_success -> _put_result(ResultSet, idx, True)', 'success arm changed')
-    chk.judge('self._put_result(result, idx, False)' in src(oe), 'C32.index', oe, '_on_error -> _put_result(error, idx, False)', 'error arm changed')
+    def _put_args(fn):
+        cs = [c_ for c_ in body_walk(fn) if isinstance(c_, ast.Call) and src(c_.func) == 'self._put_result' and not c_.keywords]
+        return [src(_res32(fn, a_)) for a_ in cs[0].args] if len(cs) == 1 else None
+    chk.judge(_put_args(os_) == ['ResultSet(future, result)', 'idx', 'True'], 'C32.index', os_, '_on_success -> _put_result(ResultSet, idx, True)', 'success arm changed')
+    chk.judge(_put_args(oe) == ['result', 'idx', 'False'], 'C32.index', oe, '_on_error -> _put_result(error, idx, False)', 'error arm changed')
     lst = m.func('ConcurrentExecutorListResults._put_result')
     gen = m.func('ConcurrentExecutorGenResults._put_result')
-    chk.judge('self._results_queue.append((idx, ExecutionResult(success, result)))' in src(lst), 'C32.index', lst, 'list results stored as (idx, ExecutionResult)', 'stored tuple changed')
-    chk.judge('heappush(self._results_queue, (idx, ExecutionResult(success, result)))' in src(gen), 'C32.index', gen, 'generator results heap-ordered by idx', 'heap entry changed')
+    def _stored(fn, fname, pos):
+        cs = [c_ for c_ in body_walk(fn) if isinstance(c_, ast.Call) and src(c_.func) == fname and len(c_.args) == pos + 1]
+        return [src(_res32(fn, c_.args[pos])) for c_ in cs]
+    chk.judge(_stored(lst, 'self._results_queue.append', 0) == ['(idx, ExecutionResult(success, result))'], 'C32.index', lst, 'list results stored as (idx, ExecutionResult)', 'stored tuple changed')
+    hp = [c_ for c_ in body_walk(gen) if isinstance(c_, ast.Call) and src(c_.func) in ('heappush', 'heapq.heappush') and len(c_.args) == 2]
+    chk.judge(len(hp) == 1 and src(hp[0].args[0]) == 'self._results_queue' and src(_res32(gen, hp[0].args[1])) == '(idx, ExecutionResult(success, result))', 'C32.index', gen,
+              'generator results heap-ordered by idx', 'heap entry changed')
     lr = m.func('ConcurrentExecutorListResults._results')
     def _sorted_projection(fn):
         # every returned list is [x[1] for x in <sorted(self._results_queue)>], the sorted list possibly held in a temporary
@@ -101,7 +118,16 @@ def check(chk):
         any(l == ('self', '_condition') for l, w in held(loops[0]))
     chk.judge(good, 'C32.bound', exe, 'execute(): at most `concurrency` initial starts, under self._condition', 'initial start loop changed')
     ec = m.func('execute_concurrent')
-    chk.judge('if concurrency <= 0' in src(ec) and 'raise ValueError' in src(ec), 'C32.bound', ec, 'concurrency must be positive', 'non-positive concurrency accepted')
+    from ..sem import flow_of as _flow32
+    gec, flec = _flow32(ec)
+    rv = [n for n in gec.nodes if n.kind == 'raise_stmt' and 'ValueError' in src(n.ast)]
+    # the rejection covers exactly the non-positive values: at the raise `0 < concurrency` is false, and past it it holds on every path that goes on
+    okb = bool(rv) and any(all(fa.knows('0 < concurrency') is False for fa, _c in flec.at(r_)) for r_ in rv)
+    if okb:
+        goes_on = [n for n in gec.stmt_nodes() if n.kind in ('stmt', 'return') and any(isinstance(x, ast.Name) and x.id == 'concurrency' for x in ast.walk(n.ast))
+                   and not isinstance(n.ast, ast.Raise)]
+        okb = bool(goes_on) and all(fa.knows('0 < concurrency') is True for n in goes_on for fa, _c in flec.at(n))
+    chk.judge(okb, 'C32.bound', ec, 'concurrency must be positive (ValueError otherwise; every later use is under concurrency > 0)', 'non-positive concurrency accepted')
     for f in (lst, gen):
         g = CFG(f)
 
